@@ -14,7 +14,9 @@ CONSTANTS MaxLen, MaxW
 
 RECURSIVE Tuples(_, _)
 Tuples(n, S) == IF n = 0 THEN {<<>>} ELSE {<<x>> \o t : x \in S, t \in Tuples(n - 1, S)}
-Vectors == UNION {Tuples(n, 0..MaxW) : n \in 1..MaxLen}
+\* ... plus short vectors of heavy weights around the depth limit of 11 (sums at and next to 2^10, 2^11, 2^12)
+DeepVectors == UNION {Tuples(n, {1, 2, 9, 10, 11, 12}) : n \in 1..3}
+Vectors == UNION {Tuples(n, 0..MaxW) : n \in 1..MaxLen} \cup DeepVectors
 UsedOf(w) == {s \in 0..Len(w) : AllW(w)[s + 1] > 0}
 Asc(w) == SetToSortSeq(UsedOf(w), <)
 DataOf(w) == Asc(w) \o Reverse(Asc(w)) \o <<Len(w)>>
